@@ -336,18 +336,16 @@ class AnsiString:
         # Apply settings
         if start not in self._fmts:
             self._fmts[start] = _AnsiSettingPoint()
-        self._fmts[start].insert_settings(True, ansi_settings, topmost)
 
-        # When not topmost, do a remove and re-add of any settings that lead up to the start index
+        # When not topmost, do a remove and re-add of any settings that lead up to the start index. They are
+        # re-added directly above the new settings, below the settings which begin at the start index.
+        remove_and_add_settings = []
         if not topmost:
-            remove_and_add_settings = []
-            settings_at_start = self.ansi_settings_at(start)
-            for setting in settings_at_start:
-                if setting not in self._fmts[start].add:
+            for setting in self.ansi_settings_at(start):
+                if __class__._find_setting_reference(setting, self._fmts[start].add) < 0:
                     remove_and_add_settings.append(setting)
-            if remove_and_add_settings:
-                self._fmts[start].insert_settings(False, remove_and_add_settings)
-                self._fmts[start].insert_settings(True, remove_and_add_settings)
+            self._fmts[start].insert_settings(False, remove_and_add_settings)
+        self._fmts[start].insert_settings(True, ansi_settings + remove_and_add_settings, topmost)
 
         # Remove settings
         if end not in self._fmts:
